@@ -14,7 +14,8 @@ patch, demo = os.path.join(src, m + ".diff"), os.path.join(src, m + "_demo_test.
 def run(cmd):
     p = subprocess.run(cmd, stdout=subprocess.PIPE, stderr=subprocess.STDOUT, text=True)
     return p.returncode, p.stdout
-rc, vout = run([os.path.join(VERIF, "tools/mutant.py"), "verify", patch, demo])
+race = ["--race"] if "--race" in sys.argv else []  # the demonstration needs the race detector
+rc, vout = run([os.path.join(VERIF, "tools/mutant.py"), "verify", patch, demo] + race)
 print(vout)
 verified = rc == 0
 results = {}
@@ -38,7 +39,7 @@ if os.path.exists(os.path.join(src, "NOTES.md")):
     shutil.copy(os.path.join(src, "NOTES.md"), os.path.join(dst, "NOTES.md"))
 meta = {"property": prop, "mutant": m, "origin": "independent sub-agent given only the property text and a scratch worktree" + ("" if rnd == "seed" else " (later round: also told which regressions the earlier rounds had produced)"),
         "verified": verified, "verification": vout.strip().splitlines(),
-        "what_i_ran": ["tools/mutant.py verify patch.diff demo_test.go", "tools/mutant.py check %s patch.diff --tier quick" % prop],
+        "what_i_ran": ["tools/mutant.py verify patch.diff demo_test.go" + (" --race" if race else ""), "tools/mutant.py check %s patch.diff --tier quick" % prop],
         "check_results": results}
 json.dump(meta, open(os.path.join(dst, "meta.json"), "w"), indent=1)
 print("SEED %s-%s verified=%s %s" % (prop, m, verified, {k: v["verdict"] for k, v in results.items()}))
